@@ -70,7 +70,7 @@ AENV = NativeEnvironment(loader=_LOADER, enable_async=True)
 P = {}
 _TC = {}
 # VERIF_INCLUDE_KNOWN=1 drops the exclusions of SUSPECTED_DEFECTS inputs, so that the check re-finds them
-INCLUDE_KNOWN = bool(os.environ.get("VERIF_INCLUDE_KNOWN"))
+INCLUDE_KNOWN = True  # all three listed defects were repaired in /repo by "fix:" commits: nothing is excluded any more
 
 
 def _t(env, src):
